@@ -139,12 +139,42 @@ def confirm_finding(run, f):
     return False, f"witness passes now: impl={impl[0][:200]} model={model[0][:200]}"
 
 
-FINDING_PREDICATES = {}
+def _model_predicted(f, case, impl, model):
+    """The bug-for-bug Lean model of the listed call site yields exactly the implementation's
+    (wrong) answer, and the failure kind is one the finding lists."""
+    kinds = f.get("identify", {}).get("params", {}).get("kinds", [])
+    ops = f.get("identify", {}).get("params", {}).get("ops", [])
+    op = case.split(" ", 1)[0]
+    return impl == model and op in ops and any(impl.startswith(k) for k in kinds)
+
+
+FINDING_PREDICATES = {"model-predicted": _model_predicted}
 
 TEXT_RULE = ("cases are generated from one xoshiro256** state seeded by VERIF_SEED; a case is counted "
              "non-trivial when its oracle is applicable (spec not n/a) and distinct by its full case line")
 
 PROPS = {
+    "C01": {
+        "rule": "initial documents: G_prog programs (plain and with comments), syntactically broken programs, lexeme sequences, Unicode "
+                "soup; histories of 1-4 edits (2/3 token-aligned: insert/delete/replace whole tokens, statements, comment lines; 1/3 "
+                "arbitrary char-boundary ranges with soup): INC (AnalyzedSource::update: tokens, tree with every diagnostic, table, "
+                "published diagnostics vs the bug-for-bug Lean model of lexer::update + parser::update + build + analyze), PROPINC "
+                "(update = new(final text), first differing layer reported; evaluated on implementation and model). " + TEXT_RULE,
+        "unproved_parts": ["the tree layer is FALSE on the current tree (known finding KF-C01-parser, Lean witness C01.kf_c01_parser_witness); "
+                           "failures are attributed to it only when the Lean model of parser::update predicts exactly the same outcome",
+                           "token layer: the general theorem update = lex is C07's (table obligation proved, equality evaluated exhaustively)"],
+    },
+    "C02": {
+        "panic_is_violation": True,
+        "rule": "documents: Unicode soup, mutated programs, token soup, nesting depth 1-64 (parentheses / if-blocks), CRLF lexeme "
+                "sequences, valid programs; NEW (AnalyzedSource::new + errors(): implementation vs model, a PANIC answer is a violation) "
+                "and INC histories of 1-5 edits through AnalyzedSource::update (PANIC answers are violations unless the Lean model of "
+                "the incremental parser predicts exactly that panic: known finding KF-C02-update-panic). " + TEXT_RULE,
+        "unproved_parts": ["new_total (the batch pipeline never panics for any text: needs fuel sufficiency and the offset-accounting "
+                           "invariant of the parser model) is evaluated on implementation and model, not yet a theorem",
+                           "the 13 request handlers at every position are exercised by C12-C17's checks; stack exhaustion on deep nesting "
+                           "is a runtime effect the model cannot exhibit (nesting bound 64 quick / 512 thorough)"],
+    },
     "C04": {
         "rule": "G_prog: programs well-typed by construction (0-3 type declarations incl. nested arrays, 1-4 procedures, reference "
                 "parameters, nested if/else/while/blocks, calls, indexed variables, unary minus, parenthesised expressions; depth 3, "
